@@ -69,6 +69,12 @@ theorem C04_rooms_per_backend (ops : List Op) (b₁ b₂ : Nat) (r : String) (s 
 
 /-! Non-vacuity: a concrete history in which the statements are about something. -/
 
+/-- The model joins a room in one step: the room is looked up and, if absent, created without anything in
+between, so two first joiners end up in the same room object.  The source does the same only while
+`processJoinRoom` holds `Hub.ru` from the lookup to the creation — regenerated on every run
+(`roomCreateAtomic`); the membership theorems speak about the code only as long as it holds. -/
+theorem C04_room_creation_atomic : Generated.Hub.roomCreateAtomic = true := by decide
+
 private def demo : List Op :=
   [.connect 1, .connect 2, .hello 1 0 .client "alice" false false, .hello 2 0 .client "bob" false false,
    .join 1 "roomA" "nc1" (.ok none ""), .join 2 "roomA" "nc2" (.ok none ""), .join 1 "roomB" "nc3" (.ok none "")]
